@@ -41,7 +41,7 @@ ASSUMPTIONS = [
     'events fired by the harness itself (write/close addressed to a socket) are not counted as events "for that socket"',
     'fd census compares /proc/self/fd right before the first action with the state after every connection ended and the harness closed its own descriptors',
 ]
-REQUIRED = ['poller_Select', 'poller_Poll', 'poller_EPoll', 'family_tcp', 'family_unix', 'peer_half_close', 'peer_close', 'peer_abort',
+REQUIRED = ['late_event_before_disconnect_was_dispatched', 'poller_Select', 'poller_Poll', 'poller_EPoll', 'family_tcp', 'family_unix', 'peer_half_close', 'peer_close', 'peer_abort',
             'peer_close_while_server_writing', 'server_buffer_filled', 'server_close_event', 'server_close_while_buffered', 'late_write', 'late_close',
             'concurrent_ge3', 'concurrent_6', 'read_split_over_events', 'strict_equality_checked', 'prefix_checked', 'residue_scanned',
             'weakref_checked', 'residue_deciders_agree', 'fd_census_taken', 'connects_before_first_tick', 'client_peer_close', 'client_peer_abort',
@@ -140,7 +140,9 @@ class World:
         name = event.name
         if name[0] == '_' or name == 'generate_events' or not self.observing:
             return
-        if getattr(event, '_vharness', False):
+        h = getattr(event, '_vharness', None)
+        if h is not None:
+            self.harness_event(event, *h)
             return
         if name == 'exception':
             fe = args[4] if len(args) > 4 else None
@@ -166,6 +168,9 @@ class World:
         if ch in self.client_log and name in ('connected', 'disconnected', 'read', 'error', 'unreachable'):
             self.client_log[ch].append((name, bytes(args[0]) if name == 'read' else None))
             self.records += 1
+
+    def harness_event(self, event, kind, idx):
+        pass
 
     # -- stepping --------------------------------------------------------------------------------
     def quiet_step(self, k=K_TICKS):
@@ -250,6 +255,7 @@ class ServerWorld(World):
         self.unsettled = False
         self.swritten = {}    # p -> bytes the server was asked to write while the connection was live
         self.late_targets = set()
+        self.live_writes = set()
         self.late_ops = []
         self.closed_by_server = set()
         self.quiet_step()
@@ -278,9 +284,33 @@ class ServerWorld(World):
     def reads_of(self, c):
         return b''.join(d for n, d in c.events if n == 'read')
 
-    def fire(self, ev):
-        ev._vharness = True
+    def fire(self, ev, kind, idx):
+        ev._vharness = (kind, idx)
         self.root.fire(ev, 'srv')
+
+    def harness_event(self, event, kind, idx):
+        """A write/close event of the harness is being dispatched (the observer runs before the server's
+        handler).  It is *late* iff the server has already ended that connection: the disconnect was
+        dispatched, or is still queued but the server closed the socket object already."""
+        if idx is None:
+            return
+        c = self.conns[idx]
+        s = c.ref()
+        late = self.disconnected(c) or s is None or s.fileno() < 0
+        if late:
+            self.marks.add('late_write' if kind == 'swrite' else 'late_close')
+            if not self.disconnected(c):
+                self.marks.add('late_event_before_disconnect_was_dispatched')
+            if self.skip_late:
+                event.stop()       # the twin of the late-event finding: the event is not delivered
+            else:
+                self.late_targets.add(idx)
+                self.late_ops.append([kind, idx])
+        elif kind == 'swrite':
+            if self.skip_swrite:
+                event.stop()
+            else:
+                self.live_writes.add(idx)
 
     # -- actions -----------------------------------------------------------------------------------
     def do(self, op):
@@ -377,32 +407,24 @@ class ServerWorld(World):
         elif kind in ('swrite', 'sclose'):
             if c is None:
                 return
-            late = self.disconnected(c)
-            if late:
-                if self.skip_late:
-                    return
-                self.marks.add('late_write' if kind == 'swrite' else 'late_close')
-                self.late_targets.add(c.index)
-                self.late_ops.append(op)
-            if kind == 'swrite' and not late and self.skip_swrite:
-                return
+            gone = self.disconnected(c)
             if kind == 'swrite':
                 data = pattern(b'W', self.swritten[p], op[2])
-                if not late:
+                if not gone:
                     self.swritten[p] += len(data)
                     if P['state'] == 'closed':
                         P['dirty'] = True
-                self.fire(nev.write(c.strong, data))
+                self.fire(nev.write(c.strong, data), kind, c.index)
             else:
-                if not late:
+                if not gone:
                     self.marks.add('server_close_event')
                     self.closed_by_server.add(c.index)
                     if self.poller.isWriting(c.strong):
                         self.marks.add('server_close_while_buffered')
-                self.fire(nev.close(c.strong))
+                self.fire(nev.close(c.strong), kind, c.index)
             if wait:
                 self.advance(lambda: False)
-                if kind == 'swrite' and not late and not self.disconnected(c) and self.poller.isWriting(c.strong):
+                if kind == 'swrite' and not self.disconnected(c) and c.strong.fileno() >= 0 and self.poller.isWriting(c.strong):
                     self.marks.add('server_buffer_filled')
         elif kind == 'step':
             for _ in range(op[1]):
@@ -531,8 +553,7 @@ class ServerWorld(World):
         """Split the places a socket was found in by mechanism (used for the known-finding attribution only;
         the verdict that something was found does not depend on it)."""
         out = {}
-        p = self.order[c.index] if c.index < len(self.order) else None
-        wrote = bool(self.swritten.get(p))
+        wrote = c.index in self.live_writes
         for f in found:
             f = tuple(f)
             if f == ('EPoll', '_map', 'value') and self.case['poller'] == 'EPoll':
@@ -688,7 +709,7 @@ class ClientWorld(World):
         return cond()
 
     def fire(self, ev, i):
-        ev._vharness = True
+        ev._vharness = ('client', None)
         self.root.fire(ev, 'c%d' % i)
 
     def do(self, op):
